@@ -116,7 +116,7 @@ class K18b(Harness):
 class K08b(Harness):
     name = "K08b"
     prop = "C08"
-    props = ("C08", "C09")
+    props = ("C08", "C09", "C13")
     title = "the clean-up that follows the structural phase (vhdlFile.fix_blank_lines, fix_trailing_whitespace, update_token_map) leaves the model in the form a fresh parse of the written text has: no blank before a line break, every empty line a blank_line token, nothing else touched; applying it again changes nothing"
     functions = ("vsg.vhdlFile.vhdlFile", "vsg.vhdlFile.utils", "vsg.token_map", "vsg.parser")
     stubs = ("the model is a real vhdlFile object whose token list is replaced by the symbolic sequence",)
@@ -149,6 +149,19 @@ class K08b(Harness):
         o.lAllObjects = list(toks)
         o.update_token_map()
 
+        # the indent refresh (run before phase 4, and instead of the clean-up when phase 1 is skipped) only writes indent attributes:
+        # it must leave the token sequence alone, or work of a skipped phase would be done behind the user's back
+        from .lfam import get_conf
+
+        o.set_indent_map(get_conf("default").dIndent)
+        before = list(o.lAllObjects)
+        vals = [t.get_value() for t in before]
+        o.set_token_indent()
+        same = len(o.lAllObjects) == len(before) and all(x is y for x, y in zip(o.lAllObjects, before)) and [t.get_value() for t in o.lAllObjects] == vals
+        pre = [("C13:indent_refresh_leaves_tokens_alone", same)]
+        o.lAllObjects = list(toks)
+        o.update_token_map()
+
         def cleanup():
             o.fix_blank_lines()
             o.fix_trailing_whitespace()
@@ -158,7 +171,7 @@ class K08b(Harness):
         out = list(o.lAllObjects)
         kind = lambda t: "blank" if isinstance(t, parser.blank_line) else "cr" if isinstance(t, parser.carriage_return) else "ws" if isinstance(t, parser.whitespace) else "comment" if isinstance(t, parser.comment) else "B"
         ko = [kind(t) for t in out]
-        cl = []
+        cl = list(pre)
         cl.append(("C08:no_blank_before_line_break", not any(a == "ws" and b == "cr" for a, b in zip(ko, ko[1:]))))
         cl.append(("C08:empty_line_is_blank_line_token", not any(a == "cr" and b == "cr" for a, b in zip(ko, ko[1:]))))
         cl.append(("C08:blank_line_token_only_on_empty_line", all(ko[i - 1] == "cr" and ko[i + 1] == "cr" for i in range(len(ko)) if ko[i] == "blank")))
